@@ -202,6 +202,8 @@ class Repo:
         self._consts = None
         self._enum = None
         self.consulted: set[str] = set()
+        self.normalise = True
+        self.normalised: dict = {}
 
     # -- files
     def path(self, rel: str) -> str:
@@ -227,9 +229,11 @@ class Repo:
             self.consulted.add(rel)
         return self._src[rel]
 
-    def tree(self, rel: str) -> ast.Module:
+    def raw_tree(self, rel: str) -> ast.Module:
+        """The module AST exactly as written."""
         rel = self.path(rel)
-        if rel not in self._tree:
+        key = "raw:" + rel
+        if key not in self._tree:
             try:
                 t = ast.parse(self.source(rel), filename=rel)
             except SyntaxError as e:
@@ -237,7 +241,38 @@ class Repo:
             set_parents(t)
             for n in ast.walk(t):
                 n._file = rel  # type: ignore[attr-defined]
+            self._tree[key] = t
+        return self._tree[key]
+
+    def tree(self, rel: str) -> ast.Module:
+        """The module AST after normalisation (vocabulary introduced after the confirmed tree is inlined away;
+        see normalize.py).  On the confirmed tree this is the tree as written."""
+        rel = self.path(rel)
+        if rel not in self._tree:
+            raw = self.raw_tree(rel)
+            if not rel.startswith(SRC + "/") or rel.count("/") != 2 or not self.normalise:
+                self._tree[rel] = raw
+                return raw
+            from . import normalize
+
+            base_env = {}
+            imported_new = {}
+            if not rel.endswith("/constants.py"):
+                try:
+                    base_env = dict(self.consts)
+                    imported_new = normalize.new_module_constants(self.raw_tree("constants.py"), "constants.py", {})
+                except AnalysisError:
+                    pass
+            try:
+                t, report = normalize.normalize_module(rel, self.source(rel), base_env, imported_new)
+            except RecursionError as e:  # pragma: no cover
+                raise AnalysisError(f"normaliser failed on {rel}: {e}") from e
+            set_parents(t)
+            for n in ast.walk(t):
+                n._file = rel  # type: ignore[attr-defined]
             self._tree[rel] = t
+            if any(report.values()):
+                self.normalised[rel] = {k: sorted(set(v)) for k, v in report.items() if v}
         return self._tree[rel]
 
     def modules(self) -> list[str]:
@@ -343,7 +378,7 @@ class Repo:
         """Foldable module constants of constants.py (ints, strings, tuples) and its IntEnum members."""
         if self._consts is None:
             env: dict = {}
-            t = self.tree("constants.py")
+            t = self.raw_tree("constants.py")
             for n in t.body:
                 if isinstance(n, ast.Assign) and len(n.targets) == 1:
                     tg = n.targets[0]
@@ -570,6 +605,7 @@ def finish(rep: Report, seed: int = 0, write: bool = True, quiet: bool = False) 
             "trusted_base": rep.trusted or ["python ast"],
             "source_digest": rep.repo.digest() if rep.repo else "",
             "files_consulted": sorted(rep.repo.consulted) if rep.repo else [],
+            "normalised_away": rep.repo.normalised if rep.repo else {},
             **rep.extra,
         },
         "assumptions": rep.assumptions
